@@ -157,8 +157,13 @@ fn execute<V: Variant, P: Peer>(plan: &Plan) -> (Option<(String, String)>, Stats
     {
         let ntt = crate::reference::field::Ntt::new(n);
         let mut rng = Prng::new(plan.stream ^ 0x5a31);
-        for _ in 0..2 {
-            let target = p.bound - 1 - rng.below(p.bound as u64 / 3) as i64;
+        for k in 0..4 {
+            // two well inside the bound, then one exactly at floor(beta^2) and one just above it
+            let target = match k {
+                0 | 1 => p.bound - 1 - rng.below(p.bound as u64 / 3) as i64,
+                2 => p.bound,
+                _ => p.bound + 1,
+            };
             if let Some(tr) = crate::byz::exact_norm_triple_shape(p, &ntt, &mut rng, target, false, None, 3) {
                 st.evaluations += 1;
                 let ref_frame = pq::to_reference(&tr.sig, P::SIG_HEADER);
@@ -168,11 +173,55 @@ fn execute<V: Variant, P: Peer>(plan: &Plan) -> (Option<(String, String)>, Stats
                     _ => false,
                 });
                 st.inc(if ok_ref { "crafted.reference_accepts" } else { "crafted.reference_rejects" });
+                if k >= 2 && ok_here.is_ok() && ok_here != Ok(ok_ref) {
+                    return fail(
+                        st,
+                        format!("verify{} here and the reference verifier disagree on a crafted signature at the norm bound", n),
+                        format!("{}; reference: {} here: {:?}", tr.note, ok_ref, ok_here),
+                    );
+                }
                 if ok_ref && ok_here != Ok(true) {
                     return fail(
                         st,
                         format!("verify{} here rejects a signature the reference verifier accepts (crafted, one coefficient of magnitude 1024..2047)", n),
                         format!("{}; here: {:?}", tr.note, ok_here),
+                    );
+                }
+            }
+        }
+    }
+    // The same for HashToPoint: on ground salts (many rejected samples) the hash point computed here
+    // (read-only hook wrapper) is compared with the specification's; where they differ, a triple that is
+    // valid for the specification's point (norm exactly floor(beta^2), s2 = 1) is shown to both verifiers.
+    {
+        let mut rng = Prng::new(plan.stream ^ 0x26a5);
+        for _ in 0..12 {
+            let l = rng.usize_below(16);
+            let msg = rng.bytes(l);
+            let (salt, _rej) = crate::byz::grind_salt(&mut rng, &msg, n, 20000);
+            let mut sm = salt.clone();
+            sm.extend_from_slice(&msg);
+            st.inc("crafted.hash_points_compared");
+            let imp = match crate::guard::guarded(|| falcon_rust::verif_hooks::hash_to_point(&sm, n)) {
+                Ok(v) => v,
+                Err(_) => continue,
+            };
+            let refc = crate::reference::specverify::hash_to_point(&sm, n);
+            let diff: Vec<usize> = (0..n).filter(|&i| imp.get(i).map(|x| *x as i64) != Some(refc[i])).collect();
+            if diff.is_empty() {
+                continue;
+            }
+            if let Some(tr) = crate::byz::flip_triple(p, &mut rng, &salt, &msg, &diff) {
+                let ok_ref = P::verify(&tr.msg, &pq::to_reference(&tr.sig, P::SIG_HEADER), &tr.pk);
+                let ok_here = crate::guard::guarded(|| match (V::sig_from_bytes(&tr.sig), V::pk_from_bytes(&tr.pk)) {
+                    (Ok(s), Ok(k)) => V::verify(&tr.msg, &s, &k),
+                    _ => false,
+                });
+                if ok_ref && ok_here != Ok(true) {
+                    return fail(
+                        st,
+                        format!("verify{} here rejects a signature the reference verifier accepts (the hashed points differ)", n),
+                        format!("{}; salt {}", tr.note, hex(&salt)),
                     );
                 }
             }
